@@ -32,10 +32,19 @@ RULE = ('cases = (active level 0..6, prefix size 0..80, 0..4 groups (levels 0..5
         'with fd 1 redirected into a temporary file: the captured bytes must be name/version line, usage, description(), usage, "Default command-line:", "<name> " + defaults(len(name)+1) with the '
         'very description() / defaults() bytes of the observation (application name of prefix-1 characters); 12 % of the defaults are percent shapes (%%, 80%, out%d.lp, %5d, %s ...; "%" is in the '
         'default alphabet anyway), one fixed case has %n; '
+        'EVERY case is also run the way a user asks for help: an Application subclass whose initOptions() adds the case\'s context to the root context runs the real Application::main(argc, argv) '
+        '7..9 times (--help, -h, --help=N / -hN for every N in 1..max with max = 5 or 6 from getHelpOption(), 1/4 of the cases with the library\'s default flag-style help option, and one N out of '
+        'range) with stdout captured: the text must be the frame + description() + defaults() of a reference context (the five "Basic Options" of getOptions written down in the harness + the same '
+        'groups) at level N-1, exit code EXIT_SUCCESS, run() not entered; independently of description() the printed entries must obey the level rule (an option has its "  --name" line iff its '
+        'own level and the minimum level of its caption are <= min(N-1, 4); fast-exit from N = 2 on); a case whose names / aliases clash with help, version, verbose, time-limit, fast-exit, -h, -v, -V or '
+        'whose flag default is not a boolean (1 flag in 16 keeps the library\'s strict parser) must be reported through error() with EXIT_FAILURE and no help; an out-of-range N likewise; '
+        '16 fixed cases (a group captioned "Basic Options", one option per level, every clash); '
         'non-trivial = at least one option is visible at the active level; distinct = distinct case tuples')
 TRUSTED_BASE = ['sprintf / vector<char> / std::string are modelled (sprintf: the four directives that occur, "write k bytes and a NUL")',
                 'props/C19.py reference rendering (oracle on the implementation)',
-                'harness/h_c19.cpp: capture of stdout around Application::printHelp (dup2 on fd 1 into a tmpfile) and its byte comparison with the direct description()/defaults() calls']
+                'harness/h_c19.cpp: capture of stdout around Application::printHelp (dup2 on fd 1 into a tmpfile) and its byte comparison with the direct description()/defaults() calls',
+                'harness/h_c19.cpp: the copy of the "Basic Options" declarations of Application::getOptions (addBasic: keys, value kinds, argument names, implicit values, description texts) that the '
+                'reference context of the Application::main("--help=N") runs is built from, and the line scanner of the level rule (headerLines; applied when all option names are [A-Za-z0-9_-]+ and no text has a newline)']
 ASSUMPTIONS = ['names, argument names, descriptions, defaults are NUL-free C strings; option names are ASCII without , ! = blank quote backslash and unique',
                'key strings are NUL-free; `unsigned` is 32 bits wide (the level number of a key is accumulated in an unsigned); keys from the corners the documented syntax does not '
                'settle ("name,a,", "name,a,@", "name,,", level numbers of more than 9 digits, group level above 5) are compared with the model but not judged by the oracle',
@@ -51,7 +60,9 @@ LEVEL_TEXT = ('Machine-checked proofs (Coq): no sprintf of DefaultFormat::format
               '@level = the level of the declaring group at declaration time as soon as the key has a "," part), refuses every other byte string, and reads back what is rendered. '
               'The model is tied to the code by differential correspondence (ASan/UBSan build) '
               'and an independent python oracle that also runs the real parseCommandString on the real defaults(). The help printed by Application::printHelp (FileOut + printf path behind --help) is '
-              'captured on every case and must consist of exactly the description() and defaults() bytes the proofs are about (tested, not proved: printf itself is outside the model).')
+              'captured on every case and must consist of exactly the description() and defaults() bytes the proofs are about (tested, not proved: printf itself is outside the model). '
+              'The user-facing path Application::main("--help[=N]" / "-h[N]") - getOptions with its own Basic Options group, parsing, assignDefaults, level N-1, setActiveDescLevel, printHelp, return value - is '
+              'run on every case for every N and must print exactly description()/defaults() of the same options at level N-1 and obey the level rule on the printed lines (tested, not proved).')
 LEVEL_NOTE = 'The default command line parses back only for command-line safe defaults (known findings for blank / quote / backslash / empty defaults).'
 
 LEVEL_ALL = 4
@@ -308,6 +319,25 @@ def oracle(c, obs):
         # context never registered (not in begin()..end() / not found by tryFind), or a refused name is known, or an add was not refused
         # (the rest of the observation is still judged: the help text and the default command line must list the registered options only)
         return (oracle(c, obs[1:]) + ['context-inconsistent-after-refused-add'])
+    if obs and obs[0] == -995:
+        # the help a USER gets - Application::main(argc, argv) with --help / --help=N / -h / -hN, i.e. getOptions: the application's own "Basic Options" group +
+        # the case's groups, parseCommandLine, assignDefaults, level = N-1, setActiveDescLevel, printHelp, return - is not the frame + description() + defaults() of the
+        # same options at level N-1, or breaks the level rule: obs = -995 flags form N rest (form 0 --help=N, 1 -hN, 2 --help, 3 -h, 4 N out of range; first failing run)
+        fl = obs[1] if len(obs) >= 4 else 1
+        extra = []
+        if fl & 1:
+            extra.append('main-help-differs-from-context-description')
+        if fl & 2:
+            extra.append('main-help-level-differs')             # an option above level N-1 has an entry in the printed help, or one at / below it has none
+        if fl & 4:
+            extra.append('main-help-not-printed')
+        if fl & 8:
+            extra.append('main-help-exit-code-differs')
+        if fl & 16:
+            extra.append('main-help-runs-application')
+        if fl & 32:
+            extra.append('main-help-level-out-of-range-accepted')
+        return oracle(c, obs[4:]) + (extra or ['main-help-differs-from-context-description'])
     if obs and obs[0] == -996:
         # the help printed by the library's own printer Application::printHelp (what `--help` of an Application shows: FileOut(stdout) + printf) is not
         # "<name> version ..", usage, description(), usage, "Default command-line:", "<name> " + defaults(len(name)+1): obs = -996 flags len bytes.. rest
@@ -833,6 +863,16 @@ def _keyed_fixed():
 
 
 FIXED += _keyed_fixed()
+# Application::main("--help=N") (run by the harness on every case, see h_c19.cpp MainApp): shapes aimed at getOptions - a group that carries the caption of the application's
+# own "Basic Options" group (merged into it: level 0 whatever the case says), one option per level 0..5 in groups of level 0..3, a name / an alias that the application
+# itself declares (help, version, verbose, time-limit, fast-exit; -h -v -V: the add is refused, main reports and prints no help), flags with a default
+FIXED += [[lv, 4, 3] + enc_str('Basic Options') + [2, 2] + _opt('extra', arg='<n>', dflt='1', desc='joins the basic options [%D]') + _opt('extra2', level=2, arg='<n>', dflt='2', desc='level 2 [%D]')
+          + enc_str('Solving') + [1, 3] + _opt('models', alias=110, arg='<n>', dflt='1', desc='Compute at most %A models') + _opt('opt-mode', level=3, arg='<m>', dflt='opt', desc='expert')
+          + _opt('secret', level=5, dflt='x', desc='never shown')
+          + enc_str('Expert') + [3, 2] + _opt('tweak', flag=1, desc='flag at level 0 of a level 3 group') + _opt('deep', level=4, neg=1, flag=1, dflt='no', desc='only with all')
+          for lv in (0, 1, 2, 3, 4, 5)]
+FIXED += [[0, 0, 1] + enc_str('App') + [0, 2] + _opt('quiet', alias=113, flag=1, desc='') + _opt(nm, alias=al, arg='<n>', dflt='0', desc='clashes with a basic option')
+          for nm, al in (('help', 0), ('version', 0), ('verbose', 0), ('time-limit', 0), ('fast-exit', 0), ('hh', 104), ('vv', 118), ('VV', 86), ('helper', 0), ('hel', 0))]
 
 
 def encode(active, prefix, groups, dirs=()):
